@@ -363,3 +363,77 @@ def rule_asm_mp(ctx, R):
         R.check(got == exp, '%s (%s, %s mode)' % (a, ver, mode), 'src/jit_compiler_x86_static.S', expected=exp, found=got)
     # eax/rax at the fragments' entry is the zero-extended 32-bit mix: emitted by generateProgramPrologue as mov eax, r; xor eax, r
     # (REX_MOV_RR = 41 8b : mov r32, r/m32 ; REX_XOR_EAX = 41 33 : xor r32, r/m32 -> 32-bit ops zero-extend)
+
+
+# ---------------------------------------------------------------------------------------------------------------------------
+# [VM-INITORDER] what randomx_vm::initialize() derives from the program is not read by run() before initialize() was called
+def rule_initorder(ctx, R, F):
+    from astq import CFG, walk, strip_all, show, loc
+    R.rule('VM-INITORDER', 'randomx_vm::initialize() derives per-program state from the freshly generated program (dataset offset, ma / mx, group A registers, configuration); in every run() of the VM classes no statement that '
+           'reads one of the members initialize() assigns may execute before the call (a read placed in front of it sees the previous program\'s value, or an indeterminate one for the first program)', min_instances=3)
+    init = F.func('randomx_vm::initialize')
+
+    def path(n):
+        n = strip_all(n)
+        out = []
+        while n['k'] in ('Mem', 'Idx', 'Cast'):
+            if n['k'] == 'Mem':
+                out.append(n.get('m'))
+                n = strip_all(n['b'])
+            elif n['k'] == 'Idx':
+                n = strip_all(n['b'])
+            else:
+                n = strip_all(n['e'])
+        if n['k'] in ('This',) or (n['k'] == 'Ref' and n.get('n') == 'this') or show(n) == 'this':
+            return tuple(reversed(out))
+        return None
+    written = set()
+    for x in walk(init['body']):
+        if x['k'] in ('Assign', 'CAssign'):
+            p = path(x['l'])
+            if p:
+                written.add(p[:2])
+        if x['k'] == 'Call' and x.get('name') in ('store64', 'store32'):
+            a0 = strip_all(x['a'][0])
+            while a0['k'] == 'Cast':
+                a0 = strip_all(a0['e'])
+            if a0['k'] == 'Un' and a0.get('op') == '&':
+                p = path(a0['e'])
+                if p:
+                    written.add(p[:2])
+    if ('datasetOffset',) not in written or len(written) < 4:
+        raise AnalysisBroken('VM-INITORDER: the members assigned by randomx_vm::initialize() were not recognised (%s)' % sorted(written))
+    R.saw(fn=init['q'])
+    n = 0
+    seen = set()
+    for f in F.all_funcs():
+        if f['name'] != 'run' or f.get('body') is None or '/src/vm_' not in f['file'] or (f['q'], f['file'], f['line']) in seen:
+            continue
+        seen.add((f['q'], f['file'], f['line']))
+        g = CFG(f)
+        ic = g.find_calls(lambda c: c.get('fn') == 'randomx_vm::initialize')
+        if not ic:
+            continue
+        n += 1
+        R.saw(fn=f['q'])
+        inode = ic[0][0]
+        bad = []
+        for nd in g.nodes:
+            st = nd.get('stmt')
+            if st is None or not astq.is_node(st) or nd['id'] == inode:
+                continue
+            if g.dominates(inode, nd['id']):
+                continue
+            targets = set()
+            for x in walk(st):
+                if x['k'] == 'Assign':
+                    targets.add(id(strip_all(x['l'])))
+            for x in walk(st):
+                if x['k'] == 'Mem' and id(x) not in targets:
+                    p = path(x)
+                    if p and (p[:2] in written or p[:1] in written):
+                        bad.append('%s at %s' % ('.'.join(p), loc(x, f)))
+        R.check(not bad, '%s reads per-program state only after initialize()' % f['q'][:70], '%s:%d' % (f['file'], f['line']), expected='every read of %s dominated by the call of initialize()' % sorted('.'.join(p) for p in written)[:6],
+                found=sorted(set(bad))[:4] or 'all reads after the call')
+    if n < 3:
+        raise AnalysisBroken('VM-INITORDER: only %d run() functions that call initialize()' % n)
